@@ -191,6 +191,32 @@ def run(R):
                 abort_fetch(w, table, entry, variant, bulk, n)
                 R.mon["fetches_aborted_midway"] += 1
                 run_one(R, level, table, entry, cells, db, variant, bulk, "reuse", w=w)
+    if R.shard == 1 % R.nshards:
+        # index lengths that bring the instance OIDs to 126, 127 and 128 sub-identifiers
+        # (128 is the SMI maximum), e.g. a table indexed by a long string; sub-identifier
+        # values at the BER and 32-bit boundaries as index components
+        table = (1, 3, 6, 1, 4, 1, 4242, 7)
+        entry = table + (1,)
+        cells = {}
+        for total in (126, 127, 128):
+            idx = (total - len(entry) - 1 - 1,) + tuple((i * 7) % 256 for i in range(total - len(entry) - 2))
+            for col in (1, 2, 10):
+                cells[(col, idx)] = ("int", total * 100 + col)
+        for a in (0, 127, 128, 16383, 16384, 2**31 - 1, 2**31, 2**32 - 1):
+            for col in (1, 2):
+                cells[(col, (a, a))] = ("int", col)
+        db = {entry + (c,) + r: v for (c, r), v in cells.items()}
+        db[table[:-1] + (8, 1, 1, 1)] = ("int", 1)
+        for level in ("v1", "v2c", "v3-sha1-priv"):
+            base = run_one(R, level, table, entry, cells, db, "table", None, "long-index")
+            run_one(R, level, table, entry, cells, db, "pytable", None, "long-index")
+            if level != "v1":
+                for bulk in BULKS:
+                    got = run_one(R, level, table, entry, cells, db, "bulktable", bulk, "long-index")
+                    if base is not None and got is not None and got != base:
+                        R.violation({"table": list(table), "db": wc.enc_db(db), "bulk": bulk, "level": level, "variant": "bulktable", "cells": [[c, list(x)] for (c, x) in sorted(cells)]}, "table() and bulktable(%d) disagree" % bulk)
+                run_one(R, level, table, entry, cells, db, "pybulktable", 3, "long-index")
+            R.mon["long_index_tables"] += 1
     if R.shard == 0:
         # v1 speaks GETNEXT only: table() must work there too
         rng = R.rng("v1")
